@@ -38,11 +38,18 @@ func classify(r respc.Reply) outcome {
 	}
 	if r.Kind == '$' || r.Kind == '+' {
 		s := strings.TrimSpace(r.Str)
-		if strings.HasPrefix(s, `{"ok":false`) {
+		if isJSONErr(s) {
 			return outcome{"err", trunc(s, 300)}
 		}
 	}
 	return outcome{"ok", trunc(txt, 300)}
+}
+
+// isJSONErr: an error document, or a script result that is an error table
+// (tile38.pcall returning the refusal: RESP output turns it into an error reply,
+// JSON output into {"ok":true,"result":{"err":...}}).
+func isJSONErr(s string) bool {
+	return strings.HasPrefix(s, `{"ok":false`) || strings.HasPrefix(s, `{"ok":true,"result":{"err":`)
 }
 
 func classifyHTTP(h httpResult) outcome {
@@ -50,7 +57,7 @@ func classifyHTTP(h httpResult) outcome {
 	if b == "" && h.Status == "" {
 		return outcome{"closed", ""}
 	}
-	if strings.HasPrefix(b, `{"ok":false`) || strings.HasPrefix(b, "-") {
+	if isJSONErr(b) || strings.HasPrefix(b, "-") {
 		return outcome{"err", trunc(b, 300)}
 	}
 	return outcome{"ok", trunc(h.Status+" "+b, 300)}
@@ -264,7 +271,7 @@ func (r *runner) issueText(e *env, cl cell, full []string) (outcome, error) {
 		return outcome{"closed", err.Error()}, nil
 	}
 	body := strings.TrimSpace(string(buf))
-	if strings.HasPrefix(body, `{"ok":false`) {
+	if isJSONErr(body) {
 		return outcome{"err", trunc(body, 300)}, nil
 	}
 	return outcome{"ok", trunc(body, 300)}, nil
@@ -355,7 +362,7 @@ func (r *runner) reference(state int, cbs []combo, wn map[string]map[string]bool
 				ctx.Inconclusive(fmt.Sprintf("leader: %q: %v alive=%v", full, err, e.s.Alive()))
 				return false
 			}
-			if cl.cmd.name == "AOFSHRINK" && out.Class == "ok" {
+			if cl.cmd.name == "AOFSHRINK" && cl.w.outer == "" && out.Class == "ok" {
 				if !waitShrink(e.s, nshr) {
 					ctx.Inconclusive(fmt.Sprintf("AOFSHRINK did not end in 30 s on the leader: %q %s %v; stderr: %s", full, cl.cb, out, e.s.StderrTail(600)))
 					return false
@@ -526,7 +533,7 @@ func (r *runner) pass(po passOpts) {
 			}
 			continue
 		}
-		if cl.cmd.name == "AOFSHRINK" && out.Class == "ok" {
+		if cl.cmd.name == "AOFSHRINK" && cl.w.outer == "" && out.Class == "ok" {
 			if !waitShrink(e.s, nshr) {
 				ctx.Inconclusive("AOFSHRINK did not end in 30 s (" + mode + ")")
 			}
